@@ -541,6 +541,14 @@ def run(ctx):
                 gs = {b.blocks[s[1]]["t"]["call"]["name"] for s in map(base_, tr.sources(st[0][1]["args"][1])) if s[0] == "call" and b.blocks[s[1]]["t"]["call"].get("trait") == ERRTYPE}
                 good = gs == {getter}
             ctx.check(good, "R17.4", b.loc(), f"encode|{setter}", f"encode: builder.{setter} must receive error.{getter}()", instance=f"{setter} <- ErrorType::{getter}")
+        # the parameter loop: on encode itself when it is there, otherwise on the sibling encode forwards to
+        b_fwd = b
+        b = enc[0]
+        if not any(t["call"]["name"] == "insert_parameters" for x_ in [b] + ce.closures_of(b) for _, t in x_.calls()):
+            sib = [ce.body(i_) for i_ in getattr(b_fwd, "inlined", []) if ce.body(i_) is not None and any(t["call"]["name"] == "insert_parameters" for x_ in [ce.body(i_)] + ce.closures_of(ce.body(i_)) for _, t in x_.calls())]
+            if len(sib) == 1:
+                b = sib[0]
+        cfg = CFG(b)
         ins = [(bb, t) for bb, t in b.calls() if t["call"]["name"] == "insert_parameters"]
         seeds = [(bb, t) for bb, t in b.calls() if t["call"]["def"] == "serde_core::de::DeserializeSeed::deserialize"]
         good = len(ins) == 1 and len(seeds) == 1 and dt.dominated_by_success(cfg, F, seeds[0][0], ins[0][0])
